@@ -246,6 +246,11 @@ func fourWay(stream []byte) (imagetype.ImageType, error, string) {
 func init() {
 	names, hs := canonicalHeaders()
 	suffixes := [][]byte{nil, {0x00}, bytes.Repeat([]byte{0xff}, 4096), []byte("\xff\xd8\xff\xe1\x00\x10Exif\x00\x00II*\x00\x08\x00\x00\x00"), []byte("\x00\x00\x00\x18ftypcrx \x00\x00\x00\x01crx isom")}
+	// every signature token any predicate looks for, right after the 24-byte window
+	// (a brand list or a magic number continuing beyond the window must not count)
+	for _, tok := range []string{"avif", "avis", "heic", "heix", "hevc", "mif1", "msf1", "miaf", "crx ", "isom", "II*\x00", "MM\x00*", "HEAP", "CCDR", "8BPS", "RIFF", "WEBP", "CR\x02\x00", "\x89PNG", "GIF8", "\xff\xd8\xff\xe0", "<?xp", "<x:x", "IIU\x00", "ftyp", "jP  "} {
+		suffixes = append(suffixes, []byte(tok), append([]byte{0, 0, 0, 0}, tok...), bytes.Repeat([]byte(tok), 6))
+	}
 	report := func(x *mc.Exec, fs *failSet, b []byte, kind string) {
 		fs.add(kind, fmt.Sprintf("header % x", b))
 	}
@@ -401,7 +406,7 @@ func init() {
 			sp := []mc.Space{
 				{Name: "one-byte-perturbations", H: h1, NoLevels: true, Rule: "canonical header x byte position x all 256 values; all four entry points + independent signature table; non-trivial = all"},
 				{Name: "splices", H: h3, NoLevels: true, Rule: "ordered pairs of canonical headers x one or two predicate byte ranges taken from the second; trivial when both headers are the same"},
-				{Name: "lengths-and-suffixes", H: h4, NoLevels: true, Rule: "canonical header x every length 0..24 x suffix menu"},
+				{Name: "lengths-and-suffixes", H: h4, NoLevels: true, Rule: "canonical header x every length 0..24 x suffix menu (1 byte, 4 KiB of 0xFF, two foreign headers, and every signature token any predicate looks for placed at bytes 24.., 28.. and repeated)"},
 			}
 			if tier == "thorough" {
 				sp = append(sp, mc.Space{Name: "two-byte-perturbations", H: h2(false), NoLevels: true, Rule: "canonical header x every position pair x all 65536 value pairs, Buf against the table"})
